@@ -3,7 +3,7 @@
 //! usage: astgen <jobs file> <out file>
 //!
 //! One job per line:
-//!     <id> <cell dir> <grammar text, hex> <LR|GLR> <D|G|C builder> <A|F table> <loc 0|1> <fancy 0|1> <D|C lexer>
+//!     <id> <cell dir> <grammar text, hex> <LR|GLR> <D|G|C builder> <A|F table> <loc 0|1> <fancy 0|1> <D|C lexer> [<-|LALR|PAGER|RN table type>]
 //!
 //! Per job the harness creates `<cell dir>`, writes `<cell dir>/g.rustemo` and runs the real
 //! `rustemo_compiler::Settings` chain (`parser_algo`, `builder_type`, `generator_table_type`,
@@ -22,7 +22,7 @@
 //! `Input`, `Ctx`, `Token` are skipped.
 use std::{fs, io::Write, panic, path::PathBuf};
 
-use rustemo_compiler::{BuilderType, GeneratorTableType, LexerType, ParserAlgo, Settings};
+use rustemo_compiler::{BuilderType, GeneratorTableType, LexerType, ParserAlgo, Settings, TableType};
 
 fn hex(s: &str) -> String {
     if s.is_empty() {
@@ -44,6 +44,13 @@ fn unhex(s: &str) -> String {
 fn settings(f: &[&str]) -> Settings {
     let mut s = Settings::new();
     s = s.parser_algo(if f[0] == "GLR" { ParserAlgo::GLR } else { ParserAlgo::LR });
+    // explicit LR table type, after `parser_algo` (which selects LALR_RN for GLR): `-` keeps the default
+    match f.get(6).copied().unwrap_or("-") {
+        "LALR" => s = s.table_type(TableType::LALR),
+        "PAGER" => s = s.table_type(TableType::LALR_PAGER),
+        "RN" => s = s.table_type(TableType::LALR_RN),
+        _ => {}
+    }
     s = s.builder_type(match f[1] {
         "G" => BuilderType::Generic,
         "C" => BuilderType::Custom,
@@ -187,7 +194,7 @@ fn main() {
     panic::set_hook(Box::new(|_| {}));
     for line in jobs.lines() {
         let f: Vec<&str> = line.split(' ').collect();
-        if f.len() != 9 {
+        if f.len() != 9 && f.len() != 10 {
             continue;
         }
         let id = f[0];
